@@ -37,7 +37,8 @@ EXPLANATION = (
     "(`if( !p.f ) p.f = new ..`) is a reference or pointer, so that the aggregate created for the first referrer is the one "
     "the next referrer is added to. "
     "(R1b) every lazyRefs member container changed during the per-attribute pass is emptied in checkAnInvAttr before the calls that change it. (R4b) every instance that enters the cache is queued for inverse resolution under the same conditions, and the queue is drained (entry taken, removed, resolved) under `no instance is half-read`, with the depth counter bracketing exactly the attribute reads. (R8) a parameter whose member is created on demand is a reference or pointer. (R9) clients of the recursive super/subtype iterators take elements either through current() or through the value of next(), never both. Not decided: that the resulting sets equal the true referrers for every population (needs the run-time population)."
-    " (R10) every loop of lazyRefs whose body inserts into a container (the subtype closure of the inverted entity, the inverse attributes of the supertypes, the candidate referrers) runs until its iterator is exhausted: no break, return or goto leaves it from the body.")
+    " (R10) every loop of lazyRefs whose body inserts into a container (the subtype closure of the inverted entity, the inverse attributes of the supertypes, the candidate referrers) runs until its iterator is exhausted: no break, return or goto leaves it from the body."
+    " (R11) in the search loops of lazyRefs every criterion (conjunct) of a multi-criteria match mentions the loop variable or a value computed from it: no criterion is the same for every element.")
 
 
 def lazyfn(prog, name):
@@ -529,6 +530,66 @@ def r10_collection_walk_exhaustive(prog, res):
     res.floor("R10.collection_walk_exhaustive", "collecting loops in lazyRefs", n, 4)
 
 
+def r11_match_depends_on_element(prog, res):
+    """A search loop of lazyRefs that looks for *the* attribute (or instance) matching several criteria tests every criterion on the
+    element it stands on: each conjunct of the match condition mentions the loop variable or something computed from it in the loop.
+    A conjunct that does not - `strcasecmp( entity, inst->EntityName() )` instead of the owner of `inst->attributes[i]` - is the same
+    for every element: it turns the per-attribute question `is this the inverted attribute, declared by that entity?` into a property of
+    the referrer, and a referrer that inherits the attribute from a supertype is dropped from the inverse attribute."""
+    def conj(c, out):
+        c = strip(c)
+        while c is not None and c["k"] == "Paren" and c.get("ch"):
+            c = strip(c["ch"][0])
+        if c is not None and c["k"] == "Binary" and c.get("op") == "&&":
+            conj(c["ch"][0], out)
+            conj(c["ch"][1], out)
+        elif c is not None:
+            out.append(c)
+    n = 0
+    for f in prog.all_functions():
+        if f.component != "cllazyfile" or "lazyRefs" not in f.name:
+            continue
+        for lp in f.walk():
+            if lp["k"] != "For":
+                continue
+            init, cond, inc, body = lp["ch"]
+            ivars = {y["d"] for part in (init, inc) if part is not None for y in walk(part) if y["k"] in ("Var", "Ref") and y.get("d") and
+                     (y["k"] == "Var" or y.get("dk") == "local")}
+            if not ivars or body is None:
+                continue
+            # variables computed from the loop variable inside the body count as `the element`
+            changed = True
+            while changed:
+                changed = False
+                for a in walk(body):
+                    d = None
+                    if a["k"] == "Var" and a.get("ch") and a["ch"][0] is not None:
+                        d, rhs = a["d"], a["ch"][0]
+                    elif a["k"] == "Assign" and strip(a["ch"][0]) is not None and strip(a["ch"][0])["k"] == "Ref":
+                        d, rhs = strip(a["ch"][0])["d"], a["ch"][1]
+                    if d and d not in ivars and any(y["k"] == "Ref" and y.get("d") in ivars for y in walk(rhs)):
+                        ivars.add(d)
+                        changed = True
+            for x in walk(body):
+                if x["k"] != "If":
+                    continue
+                cs = []
+                conj(x["ch"][0], cs)
+                if len(cs) < 2:
+                    continue
+                dep = [c for c in cs if any(y["k"] == "Ref" and y.get("d") in ivars for y in walk(c))]
+                indep = [c for c in cs if c not in dep and any(y["k"] == "Call" for y in walk(c))]
+                if not dep:
+                    continue
+                n += 1
+                res.add("R11.match_depends_on_element", "R11|%s|%s|%d" % (f.relfile(), f.name.split("::")[-1], x["l"] - f.line), f.where(x), not indep,
+                        "each of the %d criteria of the match is tested on the element the loop stands on" % len(cs) if not indep else
+                        "the criterion `%s` does not depend on the element the loop stands on: it is the same for every attribute of the "
+                        "referrer, so an attribute the referrer inherits is never matched and the referrer is missing from the inverse attribute"
+                        % expr_str(indep[0])[:90])
+    res.floor("R11.match_depends_on_element", "multi-criteria matches in lazyRefs search loops", n, 1)
+
+
 def run(prog, res, tier):
     r9_iterator_protocol(prog, res)
     r8_accumulator_shared(prog, res)
@@ -539,3 +600,4 @@ def run(prog, res, tier):
     r5_r6_collect(prog, res)
     r7_identity(prog, res)
     r10_collection_walk_exhaustive(prog, res)
+    r11_match_depends_on_element(prog, res)
